@@ -792,12 +792,16 @@ def run_sqlite(ctx, case):
         writes.append((tuple(key), desc_of(value), copy.deepcopy(value)))
         return orig_setitem(self, key, value)
 
+    state = {"dirty": False}
+
     def flush():
         n = len(writes)
         for k, desc, snap in writes:
             terms.append(f"SqSet {ckey(k)} {centry(desc)}")
             pending[k] = snap
         del writes[:]
+        if n:
+            state["dirty"] = True
         return n
 
     def open_index():
@@ -825,6 +829,7 @@ def run_sqlite(ctx, case):
             elif op[0] == "commit":
                 si.commit()
                 committed = dict(pending)
+                state["dirty"] = False
                 terms.append("SqCommit")
             elif op[0] == "load":
                 for _ in si.iteritems():
@@ -832,6 +837,7 @@ def run_sqlite(ctx, case):
                 if flush():
                     # DataIndex._load commits after storing the directory entry again
                     committed = dict(pending)
+                    state["dirty"] = False
                     terms.append("SqCommit")
                     ctx.count("sqlite:directory loaded through DataIndex._load")
             else:
@@ -843,7 +849,11 @@ def run_sqlite(ctx, case):
         before = [(list(k), e) for k, e in si.iteritems()]
         if flush():
             committed = dict(pending)
+            state["dirty"] = False
             terms.append("SqCommit")
+        # independent reference: what the still-open, committed index shows through its public API right before
+        # the close (key, metadata, hash, loaded flag of every entry), copied now
+        session_view = [(k, copy.deepcopy(e)) for k, e in before] if not state["dirty"] else None
         si.close()
         si = DataIndex.open(path)
         after = [(list(k), e) for k, e in si.iteritems()]
@@ -854,6 +864,9 @@ def run_sqlite(ctx, case):
     impl.rm_rf(d)
     # oracle: the last write per key that was committed is what is read back
     problems = index_problems([(list(k), e) for k, e in committed.items()], after, "sqlite")
+    # oracle 2: the reopened index gives exactly what the committed index showed before the close
+    if session_view is not None:
+        problems += index_problems(session_view, after, "sqlite:session-view")
     enc = lambda items: ok(vL([vL([vkey(k), ventry(e)]) for k, e in sorted(items, key=lambda ke: keysort(ke[0]))]))  # noqa: E731
     exp = vL([enc(before), enc(after)])
     rich = sum(1 for e in committed.values() if e.meta is not None and e.hash_info) >= 2
